@@ -7,6 +7,10 @@
 //          lattice around the powers of two (63..5000) or is random, and it is a run of one ordinary character, a cycling
 //          alphabet, a run of one markup character, an ordinary run with one markup character, or alternating blocks.
 //          A test may also fail by a real STRCMP_EQUAL of two long strings (message built by the framework).
+//          Every shell owns exact-size heap copies of its group name, test name and file name (equal text never means equal
+//          address).  A run may have 0..2 group filters and 0..2 name filters in effect (substring / strict / inverted /
+//          inverted strict; values mostly the program's own names or parts of them), set on the registry or through the
+//          runner's -g/-sg/-xg/-xsg/-n/-sn/-xn/-xsn: filtered-out tests give no testcase, the suite counts the selected tests.
 //          The registry is run 1..3 times against the SAME output object with a fresh TestResult per pass (what
 //          CommandLineTestRunner does for -rN), the order optionally reversed before a pass (groups stay consecutive; no
 //          shuffle: the statement's precondition); one case in three goes through a real CommandLineTestRunner subclass with
@@ -18,6 +22,7 @@
 #include "common.h"
 #include "CppUTest/JUnitTestOutput.h"
 #include "CppUTest/CommandLineTestRunner.h"
+#include "CppUTest/TestFilter.h"
 #include <expat.h>
 #include <memory>
 #include <deque>
@@ -39,7 +44,19 @@ struct CaseM {
     uint32_t passes = 1;        // runs of the registry against the same output object
     bool viaRunner = false;     // through CommandLineTestRunner (-rN ...) instead of the harness's own loop
     bool reverse[3] = {false, false, false};   // reverse the registry before pass p (runner: reverse[0] only, -b)
+    struct Filter { bool strict = false, invert = false; std::string value; };
+    std::vector<Filter> groupFilters, nameFilters;   // a test is selected when (no group filter or one of them matches its group) and the same for its name
 };
+bool filter_matches(const CaseM::Filter& f, const std::string& name) {
+    bool m = f.strict ? name == f.value : name.find(f.value) != std::string::npos;
+    return f.invert ? !m : m;
+}
+bool selected(const CaseM& c, const std::string& group, const TestM& t) {
+    bool g = c.groupFilters.empty(), n = c.nameFilters.empty();
+    for (auto& f : c.groupFilters) if (filter_matches(f, group)) g = true;
+    for (auto& f : c.nameFilters) if (filter_matches(f, t.name)) n = true;
+    return g && n;
+}
 
 struct FailM { std::string file; uint32_t line; std::string msg; bool natural = false; std::string op2; size_t index = 0; };   // index: position among all failures of the run
 struct TestSim { bool executed = false; std::vector<std::string> prints; std::vector<FailM> fails; };
@@ -197,6 +214,25 @@ CaseM decode(Reader& r) {
         }
         c.groups.push_back(gm);
     }
+    // filters, decoded last: values come mostly from the program's own names so that proper subsets are selected
+    for (int which = 0; which < 2; which++) {
+        uint32_t v = r.below(8);
+        uint32_t n = v <= 4 ? 0 : (v <= 6 ? 1 : 2);
+        for (uint32_t i = 0; i < n; i++) {
+            CaseM::Filter f;
+            uint32_t k = r.below(6);   // 0,1 substring; 2,3 strict; 4 inverted; 5 inverted strict
+            f.strict = k == 2 || k == 3 || k == 5; f.invert = k >= 4;
+            const GroupM& sg = c.groups[r.below((uint32_t)c.groups.size())];
+            const std::string& own = which == 0 ? sg.name : sg.tests[r.below((uint32_t)sg.tests.size())].name;
+            switch (r.below(4)) {
+            default:
+            case 0: case 1: f.value = own; break;
+            case 2: f.value = own.empty() ? own : own.substr(r.below((uint32_t)own.size() > 200 ? 200 : (uint32_t)own.size()), 1 + r.below(3)); break;
+            case 3: f.value = gen_name(r, style, 3); break;
+            }
+            (which == 0 ? c.groupFilters : c.nameFilters).push_back(f);
+        }
+    }
     return c;
 }
 
@@ -230,15 +266,22 @@ struct ScriptedTest : Utest {
     void testBody() CPPUTEST_OVERRIDE { run_steps(t->body); }
     void teardown() CPPUTEST_OVERRIDE { run_steps(t->teardown); }
 };
-struct Shell : UtestShell {
+// every shell owns exact-size heap copies of its three strings: equal text never implies equal address
+struct OwnNames {
+    char *g, *n, *f;
+    static char* dup(const char* s) { size_t k = strlen(s); char* p = (char*)malloc(k + 1); memcpy(p, s, k + 1); return p; }
+    OwnNames(const char* group, const TestM* tm) : g(dup(group)), n(dup(tm->name.c_str())), f(dup(tm->file.c_str())) {}
+    ~OwnNames() { free(g); free(n); free(f); }
+};
+struct Shell : OwnNames, UtestShell {
     const TestM* t;
-    Shell(const char* group, const TestM* tm) : UtestShell(group, tm->name.c_str(), tm->file.c_str(), tm->line), t(tm) {}
+    Shell(const char* group, const TestM* tm) : OwnNames(group, tm), UtestShell(g, n, f, tm->line), t(tm) {}
     Utest* createTest() CPPUTEST_OVERRIDE { return new ScriptedTest(t); }
     TestResult* result() { return getTestResult(); }
 };
-struct IgnoredShell : IgnoredUtestShell {
+struct IgnoredShell : OwnNames, IgnoredUtestShell {
     const TestM* t;
-    IgnoredShell(const char* group, const TestM* tm) : IgnoredUtestShell(group, tm->name.c_str(), tm->file.c_str(), tm->line), t(tm) {}
+    IgnoredShell(const char* group, const TestM* tm) : OwnNames(group, tm), IgnoredUtestShell(g, n, f, tm->line), t(tm) {}
     Utest* createTest() CPPUTEST_OVERRIDE { return new ScriptedTest(t); }
     TestResult* result() { return getTestResult(); }
 };
@@ -299,6 +342,11 @@ void execute(const CaseM& c) {
     if (c.viaRunner) {
         std::vector<std::string> args = {"harness", "-ojunit"};
         if (!c.package.empty()) { args.push_back("-k"); args.push_back(c.package); }
+        for (int which = 0; which < 2; which++)
+            for (auto& f : which == 0 ? c.groupFilters : c.nameFilters) {
+                args.push_back(std::string(f.invert ? "-x" : "-") + (f.strict ? "s" : "") + (which == 0 ? "g" : "n"));
+                args.push_back(f.value);
+            }
         if (c.passes > 1) args.push_back("-r" + std::to_string(c.passes));
         if (c.runIgnored) args.push_back("-ri");
         if (c.reverse[0]) args.push_back("-b");
@@ -312,6 +360,17 @@ void execute(const CaseM& c) {
     RecordingJUnit out;
     if (!c.package.empty()) out.setPackageName(c.package.c_str());
     if (c.runIgnored) reg.setRunIgnored();
+    std::vector<std::unique_ptr<TestFilter>> filters;
+    for (int which = 0; which < 2; which++) {
+        TestFilter* head = NULLPTR;
+        for (auto& f : which == 0 ? c.groupFilters : c.nameFilters) {
+            filters.emplace_back(new TestFilter(f.value.c_str()));
+            if (f.strict) filters.back()->strictMatching();
+            if (f.invert) filters.back()->invertMatching();
+            head = filters.back()->add(head);
+        }
+        if (which == 0) reg.setGroupFilters(head); else reg.setNameFilters(head);
+    }
     for (uint32_t p = 0; p < c.passes; p++) {
         if (c.reverse[p]) reg.reverseTests();
         out.printTestRun(p + 1, c.passes);
@@ -380,6 +439,9 @@ std::string expected_file_name(const CaseM& c, const GroupM& g) {
 
 std::string render(const CaseM& c) {
     std::string o = sfmt("package=\"%s\" runIgnored=%d passes=%u%s reverse=%d,%d,%d;", P(c.package).c_str(), c.runIgnored, c.passes, c.viaRunner ? " via CommandLineTestRunner" : "", c.reverse[0], c.reverse[1], c.reverse[2]);
+    for (int which = 0; which < 2; which++)
+        for (auto& f : which == 0 ? c.groupFilters : c.nameFilters)
+            o += sfmt(" %s%s%s \"%s\"", f.invert ? "-x" : "-", f.strict ? "s" : "", which == 0 ? "g" : "n", P(f.value).c_str());
     for (auto& g : c.groups) {
         o += sfmt(" GROUP \"%s\" {", P(g.name).c_str());
         for (auto& t : g.tests) {
@@ -525,27 +587,52 @@ int run_and_judge(const CaseM& c, bool useKnown, Verdict& v) {
 
     execute(c);
 
-    V_CHECK(g_files.size() == c.groups.size() * c.passes, "C16:file-count", "%zu files opened for %zu groups x %u passes", g_files.size(), c.groups.size(), c.passes);
     V_CHECK(g_stray_puts == 0 && g_stray_close == 0, "C16:file-io-protocol", "%d writes and %d closes on a file that is not open", g_stray_puts, g_stray_close);
     bool sameName = false;
     bool reversed = false;
     size_t failIndex = 0;
+    size_t fileIndex = 0;      // next captured file
+    bool filtering = !c.groupFilters.empty() || !c.nameFilters.empty();
+    if (filtering) verif::cls(sfmt("filters:%zu-group-%zu-name", c.groupFilters.size(), c.nameFilters.size()).c_str());
     for (uint32_t pass = 0; pass < c.passes; pass++) {
         // the order of this pass: a reversal turns the whole list round (groups stay consecutive)
         if (c.reverse[pass] && (!c.viaRunner || pass == 0)) { reversed = !reversed; verif::cls("order:reversed-before-a-pass"); }
         std::vector<GroupM> order(c.groups);
         if (reversed) { std::reverse(order.begin(), order.end()); for (auto& g : order) std::reverse(g.tests.begin(), g.tests.end()); }
+        // filtered-out tests are not part of the run; a group none of whose tests is selected is handled below
+        std::vector<bool> deselected(order.size(), false);
+        if (filtering)
+            for (size_t k = 0; k < order.size(); k++) {
+                std::vector<TestM> keep;
+                for (auto& t : order[k].tests) if (selected(c, order[k].name, t)) keep.push_back(t);
+                if (pass == 0) verif::cls(keep.empty() ? "filters:whole-group-deselected" : (keep.size() == order[k].tests.size() ? "filters:whole-group-selected" : "filters:group-partly-selected"));
+                deselected[k] = keep.empty();
+                order[k].tests.swap(keep);
+            }
         std::vector<std::vector<TestSim>> psims;
         for (auto& g : order) {
             psims.emplace_back();
             for (auto& t : g.tests) { psims.back().push_back(simulate(c, t)); for (auto& f : psims.back().back().fails) f.index = failIndex++; }
         }
         for (size_t k = 0; k < order.size(); k++) {
-            const GroupM& g = order[k]; const Cap& cap = *g_files[pass * order.size() + k];
+            const GroupM& g = order[k];
+            if (deselected[k]) {
+                // C16 does not say what a group without a selected test has to produce: nothing, or one well-formed report without
+                // any testcase (the unchanged tree writes cpputest_[package_].xml with name="" tests="0"); its name and counts are not judged
+                if (fileIndex < g_files.size()) {
+                    const Cap& ec = *g_files[fileIndex];
+                    Doc ed; std::string eerr;
+                    bool wf = !ec.open && ec.closes == 1 && parse_xml(ec.data, ed, eerr);
+                    if (wf && ed.root && ed.root->children("testcase").empty()) { fileIndex++; verif::cls("deselected-group:report-without-testcase"); }
+                }
+                continue;
+            }
+            V_CHECK(fileIndex < g_files.size(), "C16:file-count", "pass %u: no file for group \"%s\" (%zu files opened in all)", pass + 1, P(g.name).c_str(), g_files.size());
+            const Cap& cap = *g_files[fileIndex++];
             std::string want = expected_file_name(c, g);
             V_CHECK(cap.name == want, "C16:file-name", "pass %u file #%zu is named \"%s\"; group \"%s\" package \"%s\" should give \"%s\" (%s)", pass + 1, k, P(cap.name).c_str(), P(g.name).c_str(), P(c.package).c_str(), P(want).c_str(), D(cap.name, want).c_str());
             V_CHECK(!cap.open && cap.closes == 1, "C16:file-not-closed", "file \"%s\" closed %d times", P(cap.name).c_str(), cap.closes);
-            if (pass == 0) for (size_t j = 0; j < k; j++) if (g_files[j]->name == cap.name) sameName = true;
+            if (pass == 0) for (size_t j = 0; j + 1 < fileIndex; j++) if (g_files[j]->name == cap.name) sameName = true;
             // strings that the writer places inside attribute values
             bool markupNames = has_any(c.package, "&<\"") || has_any(g.name, "&<\"");
             for (size_t i = 0; i < g.tests.size(); i++) {
@@ -562,6 +649,8 @@ int run_and_judge(const CaseM& c, bool useKnown, Verdict& v) {
             }
         }
     }
+    V_CHECK(fileIndex == g_files.size(), "C16:file-count", "%zu files opened, %zu belong to the groups of the %u passes (next unexpected: \"%s\")", g_files.size(), fileIndex, c.passes,
+            fileIndex < g_files.size() ? P(g_files[fileIndex]->name).c_str() : "");
     if (sameName) verif::cls("two-groups-same-file-name");
     return 0;
 }
